@@ -134,8 +134,11 @@ def build_network(net, deferred_index=False):
         if net["ar"][k]:
             kw.update(adjacent_right=net["ar"][k], adjacent_right_same_direction=bool(net["ard"][k]))
         if net["stp"][k]:
+            # (a reference set that is empty is left at the constructor default None for every other stop line)
+            ssg, slt = set(net["ssg"][k]), set(net["slt"][k])
+            none_if_empty = (i + len(net["S"]) + len(net["T"])) % 2 == 0
             kw["stop_line"] = StopLine(np.array([2.0 * i + 0.9, 0.0]), np.array([2.0 * i + 0.9, 1.0]), LineMarking.SOLID,
-                                       set(net["ssg"][k]), set(net["slt"][k]))
+                                       (ssg or None) if none_if_empty else ssg, (slt or None) if none_if_empty else slt)
         lanelets.append(G.lanelet(i, x0=2.0 * i, predecessor=list(net["pred"][k]), successor=list(net["succ"][k]),
                                   traffic_signs=set(net["sg"][k]), traffic_lights=set(net["lt"][k]),
                                   lanelet_type={LaneletType[TYPES[k]]}, **kw))
